@@ -148,6 +148,20 @@ CLAIMED = {
              "(gfortran 12 does not render them), bind(C) names with no prototype available (user functions without headers).",
         technique="Coq proof (layout) + regenerated table theorems (vm_compute) + gfortran -fc-prototypes comparison",
         design="4/C04"),
+    "C05": dict(
+        text="PARTIAL. Coq theorem (every dependency table with a rank certificate, every list of requested helpers): the model of "
+             "_gather_helper_code emits each needed helper once, closed under dependencies, each after the helpers it uses. Table "
+             "theorems by vm_compute over tables regenerated from /repo for c and c++: the C, Fortran and Lua helper tables have a "
+             "rank certificate (all dependencies exist, acyclic) hence the theorem applies to them for every request; every template "
+             "block (467 statement clauses and helper texts) leaves the indentation balanced and never makes write_lines fail "
+             "(evaluated with the verified Text model); every resolved C statement entry lists in c_helper each string helper its "
+             "clauses call. Tie: extracted gather vs the real Wrapc._gather_helper_code on random tables. Validation/search: the "
+             "compilers: every file generated for corpus entries that ship their headers and for two generated libraries over "
+             "{wrapper subsets} x {doc options} x {line lengths} x {F_CFI}.",
+        note="That emitted text is accepted by gcc/g++/gfortran is validated by compiling, not proved; linking is not exercised; "
+             "numpy-dependent Python sources are skipped. Trusted: Coq kernel, extraction, translators, compilers, the Lua API stub.",
+        technique="Coq proof (helper gathering) + regenerated table theorems (vm_compute) + compile validation",
+        design="4/C05"),
 }
 
 PENDING = {}
